@@ -17,6 +17,7 @@ SPEC = dict(
             _e("c10_hit_key", "UnpackHitSwapMeta on the 26-byte header [b 'size' b 0 0 b] [b 'len' b 0 0 b] [b key1..key14 b] = prefix + one key field, 8 symbolic bytes (magic, size byte 0 and 3, field type, length byte 0 and 3, first and last key byte);" + _b, ["accepted-key", "accepted-other", "refused"]),
             _e("c10_hit_url", "UnpackHitSwapMeta on the 37-byte header prefix + URL field 'h:/aB\\0' + key field with 5 symbolic bytes (URL field type, length byte 0, last URL byte and the terminator, first key byte); entry with or without URLs;" + _b, ["accepted-url", "accepted-key", "refused"]),
             _e("c10_hit_vary", "UnpackHitSwapMeta on the 25-byte header prefix + Vary field 'x\\0' + object-size field with 4 symbolic bytes (Vary type, length byte 0, both value bytes); entry knows Vary 'x';" + _b, ["accepted-vary", "accepted", "refused"]),
+            _e("c10_hit_objsize", "UnpackHitSwapMeta on the 39-byte header prefix + key field + object-size field whose two low value bytes are symbolic (stored size 0..65535, agreeing or not with the entry's size);" + _b, ["accepted-key", "refused"]),
             _e("c10_hit_any", "UnpackHitSwapMeta on every buffer of 0..10 fully symbolic bytes;" + _b, ["accepted-other", "refused"]),
             _e("c10_index", "UnpackIndexSwapMeta on a MemBuf holding exactly the 75-byte header prefix + key field + STD_LFS field with 5 symbolic bytes (size byte 0, key type, key length byte 0, first key byte, basics type)", ["indexed-key", "indexed-keyless", "refused"]),
             _e("c10_prefix", "UnpackSwapMetaSize on every SBuf of 0..7 fully symbolic bytes", ["accepted", "refused"]),
@@ -25,6 +26,7 @@ SPEC = dict(
             _e("c10_hit_key", "as quick", ["accepted-key", "accepted-other", "refused"]),
             _e("c10_hit_url", "as quick plus symbolic first URL byte, key field type and size byte 0 (8 symbolic bytes)", ["accepted-url", "accepted-key", "refused"]),
             _e("c10_hit_vary", "as quick plus symbolic type and length byte 0 of the following field (6 symbolic bytes)", ["accepted-vary", "accepted", "refused"]),
+            _e("c10_hit_objsize", "UnpackHitSwapMeta on the 39-byte header prefix + key field + object-size field whose two low value bytes are symbolic (stored size 0..65535, agreeing or not with the entry's size);" + _b, ["accepted-key", "refused"]),
             _e("c10_hit_any", "UnpackHitSwapMeta on every buffer of 0..12 fully symbolic bytes;" + _b, ["accepted-other", "refused"]),
             _e("c10_index", "as quick plus symbolic magic, basics length byte 0 and first basics byte (8 symbolic bytes)", ["indexed-key", "indexed-keyless", "refused"]),
             _e("c10_prefix", "as quick", ["accepted", "refused"]),
